@@ -95,8 +95,11 @@ func (f *rawFileWriter) Close() error {
 	if err := f.WriteItem(terminator); err != nil {
 		return err
 	}
+	verifYield(130, 0) // verif: terminator buffered
 
 	f.w.Flush()
+	verifYield(131, 0)       // verif: flushed
+	defer verifYield(132, 0) // verif: file closed
 	return f.fd.Close()
 }
 
